@@ -44,6 +44,15 @@ def one_case(rng, R, sample=False):
         if rng.random() < 0.3:
             tag = (tag - np.log(np.exp(tag).sum(1, keepdims=True))).astype(np.float32)
         dep = nrng.standard_normal((n, n + 1)).astype(np.float32)
+        lay = rng.random()
+        if lay < 0.15:                      # a column slice of a wider (padded) batch matrix: not C-contiguous
+            wide = np.zeros((n, ncat + 3), dtype=np.float32)
+            wide[:, :ncat] = tag
+            tag = wide[:, :ncat]
+            R.count('filter:non-contiguous-matrices')
+        elif lay < 0.25:
+            tag = np.asfortranarray(tag)
+            R.count('filter:non-contiguous-matrices')
         scores.append(ScoringResult(tag, dep))
     dict_words = rng.sample(vocab, rng.randint(0, len(vocab)))
     cat_dict = {}
@@ -142,13 +151,18 @@ def run(spec, R):
     for cfg, lang, nodict in (('config_en.jsonnet', 'en', False), ('config_rebank.jsonnet', 'en', True), ('config_ja.jsonnet', 'ja', True)):
         set_global_language_to(lang)
         try:
-            b, u, cd, roots = read_params(env.model_path(cfg), nodict)     # parse contract checks every string it reads
+            # a configuration that carries a dictionary is read with it (today only config_en does)
+            try:
+                b, u, cd, roots = read_params(env.model_path(cfg), False)
+            except KeyError:
+                b, u, cd, roots = read_params(env.model_path(cfg), True)     # parse contract checks every string it reads
         except Exception as e:
             R.violation('data:unparseable-string', f'read_params({cfg}) raised {e!r}', {'config': cfg})
             continue
         R.count('shipped:configs-read')
         R.case(('config', cfg), True)
-        if cfg == 'config_en.jsonnet':
+        R.extra[f'dictionary_words_{cfg}'] = len(cd or {})
+        if cd:
             targets = roots                                   # read_params returns the parsed targets list
             tset = set(targets)
             bad = sorted({str(c) for cats in cd.values() for c in cats if c not in tset})
@@ -156,7 +170,7 @@ def run(spec, R):
             R.extra['shipped_dict_words'] = len(cd)
             R.extra['shipped_targets'] = len(targets)
             if bad:
-                R.violation('data:not-in-inventory', f'dictionary categories missing from targets.en: {bad[:5]}', {'missing': bad})
+                R.violation('data:not-in-inventory', f'{cfg}: dictionary categories missing from the tag inventory of the same configuration: {bad[:5]}', {'missing': bad, 'config': cfg})
                 continue
             if len(set(targets)) != len(targets):
                 R.count('shipped:duplicate-targets')
